@@ -539,6 +539,15 @@ func concPart(tier string) runner.Part {
 }
 
 func main() {
+	if os.Getenv("C15_DEBUG") != "" {
+		cfgs := seqConfigs("quick")
+		n := 0
+		fmt.Sscan(os.Getenv("C15_DEBUG"), &n)
+		t0 := time.Now()
+		out, errs, broken := runSeq(cfgs[n], "/dev/shm")
+		fmt.Println(len(cfgs), cfgs[n].String(), "=>", out, errs, broken, time.Since(t0))
+		return
+	}
 	runner.Main(runner.Check{
 		ID:          "C15",
 		Level:       "model_checking",
